@@ -355,6 +355,13 @@ def pdr_verdicts(ctx):
     ctx.inst("R15.4", "pdr:Success:count", len(succ) == 1, f["span"], "expected one Success site in pdr, found %d" % len(succ))
     unk = [n for n in ix.nodes if n.get("k") == "def" and n.get("path") == "patronus::mc::types::ModelCheckResult::Unknown"]
     ok = len(unk) == 1 and not [k for k in ix.region_kinds(unk[0]) if k in ("loop", "then", "else", "arm")]
+    if not ok and len(unk) == 1:
+        # inside the frame loop: only under a comparison of the frontier with the limit (`if state.frontier() > limit { return Ok(Unknown) }`)
+        for cnd, pol in psanorm.path_conditions(ix, unk[0]):
+            if cnd.get("k") == "binary" and cnd["op"] in ("<", "<=", ">", ">="):
+                sides = [resolve(peel(cnd["l"])), resolve(peel(cnd["r"]))]
+                if any(x.get("k") == "mcall" and x["name"] == "frontier" for s_ in sides for x in walk(s_)):
+                    ok = True
     ctx.inst("R15.4", "pdr:Unknown-only-after-frame-limit", ok, f["span"], "pdr may answer Unknown only after the frame limit loop has ended")
     # documented Unknown -> Err sites
     c = ctx.facts.lib("patronus")
@@ -367,7 +374,11 @@ def pdr_verdicts(ctx):
         for n in gx.nodes:
             if n.get("k") == "match":
                 for arm in n["arms"]:
-                    for alt in pat_alts(arm["pat"]):
+                    alts_ = pat_alts(arm["pat"])
+                    qs = [(alt["subs"][0] if alt.get("k") == "ptuple" and alt["subs"] else alt) for alt in alts_]
+                    if not all(q.get("k") == "pvariant" and q.get("path") == RESP + "Unknown" for q in qs):
+                        continue              # an arm that also takes other answers is judged by R15.3 (lumping), not here
+                    for alt in alts_[:1]:
                         q = alt["subs"][0] if alt.get("k") == "ptuple" and alt["subs"] else alt
                         if q.get("k") == "pvariant" and q.get("path") == RESP + "Unknown":
                             b = peel(peel_block(arm["body"]))
